@@ -529,17 +529,19 @@ func Run(tier string) {
 	})
 	run.Add("cli_identity_files", len(cliCases))
 	// the same files, passphrase-encrypted, given to -i (cmd/age's EncryptedIdentity)
-	nEnc := 0
+	var encPick []int
 	for j, i := range cliCases {
-		if j%run.Pick(9, 3) != int(run.Seed)%run.Pick(9, 3) {
-			continue
+		if j%run.Pick(9, 6) == int(run.Seed)%run.Pick(9, 6) {
+			encPick = append(encPick, i)
 		}
-		nEnc++
+	}
+	vk.Parallel(len(encPick), 8, func(j int) {
+		i := encPick[j]
 		r := rand.New(rand.NewSource(run.Seed*7919 + int64(i)))
 		checkCLI(run, ks, &cases[i], "encids", r, dir, ageBin, 2000000+i)
 		run.Distinct("cli-encids:" + sig(&cases[i]))
-	}
-	run.Add("cli_encrypted_identity_files", nEnc)
+	})
+	run.Add("cli_encrypted_identity_files", len(encPick))
 	// CLI recipients files with SSH and skipped lines
 	rc := gen(run, "clircp", cfg(run.Pick(2, 3), set("key1", "sshkey"), set("comment", "empty", "long_comment", "long_comment_key"), set("skip"), set("subst1", "lead_ws", "trail_ws", "other_kind", "two_keys", "ws_only", "key_hash", "wrong_case"), set("lf", "crlf", "none")))
 	var pick []int
